@@ -366,6 +366,7 @@ class SimFS:
         self.file_bufsize = None
         self.open_files = []
         self.fds = {}            # fd -> rel for descriptors opened for writing below the root
+        self._rd_cache = {}
         self.mutations = []      # (kind, rel) of every mutating call seen by the seams
         self.listings = []       # (rel, tuple(names)) served
         self.installed = False
@@ -391,19 +392,39 @@ class SimFS:
                 p = os.fsdecode(p)
             if not os.path.isabs(p):
                 p = os.path.join(os.getcwd(), p)
-            p = os.path.normpath(p)
+            lex = os.path.normpath(p)
         except TypeError:
             return None
+        mounted = False
         for src, dst in self.mounts:
             # fixed absolute locations of a BMC (default PEL directory, registry directory) served from the scratch tree
-            if p == src or p.startswith(src + os.sep):
-                p = dst + p[len(src):]
+            if lex == src or lex.startswith(src + os.sep):
+                p = dst + lex[len(src):]
+                mounted = True
                 break
+        if not mounted:
+            if not (p.startswith(self.prefix) or p == self.root):
+                return None
+            # what the operating system would do: resolve the directory part physically ("<link>/.." is the parent of the
+            # link's TARGET, not of the link), keep the last component as it is (it may itself be a link that is removed)
+            q = p.rstrip(os.sep) or os.sep
+            head, tail = os.path.split(q)
+            if tail in ("..", ".", ""):
+                p = self._realdir(q)
+            else:
+                p = os.path.join(self._realdir(head), tail)
         if p == self.root:
             return "."
         if p.startswith(self.prefix):
             return p[len(self.prefix):]
         return None
+
+    def _realdir(self, d):
+        r = self._rd_cache.get(d)
+        if r is None:
+            r = os.path.realpath(d)
+            self._rd_cache[d] = r
+        return r
 
     def real(self, rel):
         return self.root if rel == "." else os.path.join(self.root, rel)
@@ -528,6 +549,7 @@ class SimFS:
                 raise _oserror(f.get("errno", "EACCES"), a[0])
             a = tuple(fs.real(r) if (i < nargs and r is not None) else x for i, (x, r) in enumerate(zip(a, rels + [None] * len(a))))
             res = orig(*a, **kw)
+            fs._rd_cache.clear()
             fs.mutations.append((kind, rel))
             fs.ev.after(idx)
             return res
@@ -648,6 +670,7 @@ class SimFS:
         self.open_files = []
         self.mutations = []
         self.listings = []
+        self._rd_cache = {}
 
     def end_op(self, interpreter_exit=True):
         """What the interpreter does with file objects nobody closed: CPython
@@ -965,6 +988,7 @@ class World:
         self.long_opts = False       # spell options in their long form (--list instead of -l ...)
         self.path_style = "abs"      # how directory / file arguments are spelled: abs | rel | slash
         self.rel_dot = False
+        self.dotdot_via = None       # (directory, sub-directory) for path_style "dotdot"
         self._saved_path = None
         self._saved_meta = None
 
@@ -1076,6 +1100,12 @@ class World:
                 p = os.path.join(".", a[2:]) if self.rel_dot else a[2:]
             if self.path_style == "slash" and os.path.isdir(self.path(a[2:])):
                 p += "/"
+            if self.path_style == "dotdot" and self.dotdot_via and a[2:] == self.dotdot_via[0]:
+                # "<link to a sub-directory>/..": physically the directory itself, lexically something else
+                link = self.path("LNK")
+                if not os.path.islink(link):
+                    _o.symlink(os.path.join(self.dotdot_via[0], self.dotdot_via[1]), link)
+                p = os.path.join(link, "..")
             return p
         real = [tr(a) for a in argv]
         if self.long_opts:
